@@ -1,8 +1,11 @@
 package main
 
 import (
+	"go/ast"
 	"go/token"
 	"go/types"
+	"sort"
+	"strings"
 
 	"golang.org/x/tools/go/ssa"
 )
@@ -441,6 +444,92 @@ func checkC05(p *Prog, r *Report) {
 	} else {
 		r.unresolved(rule, "core.BuildState.logResult")
 	}
+	// (8) the cycle detector must follow at least the edges the scheduler blocks on
+	rule = "E9.cycle-edges-cover-wait-edges"
+	{
+		depAccessors := func(v ssa.Value) map[string]bool {
+			out := map[string]bool{}
+			for x := range backSlice(v, SliceOpts{}) {
+				c, ok := x.(*ssa.Call)
+				if !ok {
+					continue
+				}
+				g := calleeOrigin(&c.Call)
+				if g == nil || fnPkg(g) != modPath+"/src/core" || g.Signature.Recv() == nil {
+					continue
+				}
+				if typeString(g.Signature.Recv().Type()) != "*core.BuildTarget" || g.Signature.Results().Len() != 1 {
+					continue
+				}
+				if typeString(g.Signature.Results().At(0).Type()) == "[]*core.BuildTarget" {
+					out[g.Name()] = true
+				}
+			}
+			return out
+		}
+		waitEdges := map[string]bool{}
+		for _, w := range callsInFn(a.qAsync, a.waitBuild) {
+			for k := range depAccessors(callCommon(w).Args[0]) {
+				waitEdges[k] = true
+			}
+		}
+		cyc := p.Fn("core", "cycleDetector.Check")
+		cycEdges := map[string]bool{}
+		var site token.Pos
+		nRec := 0
+		if cyc != nil {
+			site = cyc.Pos()
+			for _, g := range withAnon(cyc) {
+				eachInstr(g, false, func(_ *ssa.Function, i ssa.Instruction) {
+					cc := callCommon(i)
+					if cc == nil || g.Parent() == nil || resolveCalleeDeep(cc) != g || len(cc.Args) == 0 {
+						return
+					}
+					nRec++
+					site = i.Pos()
+					for k := range depAccessors(cc.Args[0]) {
+						cycEdges[k] = true
+					}
+				})
+			}
+		}
+		if cyc == nil || nRec == 0 || len(waitEdges) == 0 {
+			r.unresolved(rule, "recursive visit closure in cycleDetector.Check / WaitForBuild loop in queueTargetAsync")
+		} else {
+			for k := range waitEdges {
+				r.check(cycEdges[k], rule, "edges waited on via "+k+"() are followed by the cycle detector", p.pos(site), fnName(cyc),
+					"the detector's recursive visit ranges over the same accessor the scheduler's wait loop ranges over",
+					"queueTargetAsync blocks on every element of target."+k+"() but the cycle detector follows a different edge set ("+strings.Join(sortedKeys(cycEdges), ",")+"): a cycle through an edge it omits deadlocks the build and is never reported, so plz hangs instead of failing")
+			}
+		}
+	}
+	// (9) the wait map underneath WaitForTarget / SyncParsePackage / subinclude must not lose
+	// wake-ups: a lost wake-up leaves a queueTargetAsync goroutine parked for ever (numPending
+	// never reaches zero). Same rules as C15, restricted to those whose violation is a hang.
+	{
+		sub := newReport(r.Prop)
+		sub.goos = r.goos
+		checkC15(p, sub)
+		hang := map[string]bool{"E5.no-lost-wakeup": true, "E5.first-caller-sets": true, "E6.close-discipline": true, "E7.returns-map-state": true, "E6.lock-balance": true}
+		for _, o := range sub.Obs {
+			if hang[o.Rule] || strings.Contains(o.Key, "UNRESOLVED") {
+				o.Rule = "cmap/" + o.Rule
+				o.Key = "cmap/" + o.Key
+				r.Obs = append(r.Obs, o)
+			}
+		}
+		r.floor("cmap/E5.no-lost-wakeup", 2)
+		r.floor("cmap/E7.returns-map-state", 2)
+	}
+}
+
+func sortedKeys(m map[string]bool) []string {
+	var out []string
+	for k := range m {
+		out = append(out, k)
+	}
+	sort.Strings(out)
+	return out
 }
 
 func isSetState(i ssa.Instruction, a *schedAnchors, v int64) bool {
@@ -788,6 +877,86 @@ func checkC04(p *Prog, r *Report) {
 					}
 				}
 				r.check(fromDeps, rule, "WaitForBuild receiver ranges over Dependencies()", p.pos(w.Pos()), fnName(a.qAsync), "the waited target is an element of target.Dependencies()", "WaitForBuild is not applied to the elements of target.Dependencies()")
+			}
+		}
+	}
+	// (3b) a declared dependency is skipped as "already resolved" only on evidence that is
+	// produced after the dependency really was resolved
+	rule = "E5.skip-means-resolved"
+	{
+		rd := a.resolveDeps
+		depsField := p.Field("core", "BuildTarget", "dependencies")
+		waitTarget := p.Fn("core", "BuildGraph.WaitForTarget")
+		// spawn sites: errgroup Go / go statements inside the loop over target.dependencies
+		var spawns []ssa.Instruction
+		eachInstr(rd, false, func(_ *ssa.Function, i ssa.Instruction) {
+			if isCallTo(i, "(*golang.org/x/sync/errgroup.Group).Go") {
+				spawns = append(spawns, i)
+			} else if _, ok := i.(*ssa.Go); ok {
+				spawns = append(spawns, i)
+			}
+		})
+		if depsField == nil || waitTarget == nil || len(spawns) == 0 {
+			r.unresolved(rule, "BuildTarget.dependencies / BuildGraph.WaitForTarget / resolver spawn in resolveDependencies")
+		} else {
+			// skip tests: conditions guarding the spawn that read a field of the dependency record
+			skipFields := map[string]bool{}
+			var skipSite token.Pos
+			for _, sp := range spawns {
+				for _, f := range condFacts(sp.Block()) {
+					onDep := false
+					fields := map[string]bool{}
+					for x := range backSlice(f.V, SliceOpts{}) {
+						if fo := fieldOf(x); fo != nil {
+							if sameField(fo, depsField) {
+								onDep = true
+							} else if k := fieldKey(x); strings.HasPrefix(k, "core.depInfo.") {
+								fields[k] = true
+							}
+						}
+					}
+					if onDep {
+						for k := range fields {
+							skipFields[k] = true
+						}
+						if i, ok := f.V.(ssa.Instruction); ok {
+							skipSite = i.Pos()
+						}
+					}
+				}
+			}
+			if len(skipFields) == 0 {
+				r.okTrivial(rule, "no skip test", p.pos(rd.Pos()), fnName(rd), "every declared dependency is (re)resolved on every pass")
+			}
+			for k := range skipFields {
+				// every store to this field in production code must be dominated by a WaitForTarget call
+				nStores, nBad := 0, 0
+				var badSite token.Pos
+				for _, fn := range p.Funcs("core") {
+					eachInstr(fn, false, func(_ *ssa.Function, i ssa.Instruction) {
+						st, ok := i.(*ssa.Store)
+						if !ok || fieldKey(st.Addr) != k {
+							return
+						}
+						if top := topFunc(fn); top != rd && len(p.callers(top)) == 0 && !ast.IsExported(top.Name()) {
+							return // unreachable helper kept for tests
+						}
+						nStores++
+						dominated := false
+						for _, j := range callsInFn(fn, waitTarget) {
+							if instrDominates(j, st) {
+								dominated = true
+							}
+						}
+						if !dominated {
+							nBad++
+							badSite = st.Pos()
+						}
+					})
+				}
+				r.check(nBad == 0 && nStores > 0, rule, "skip test reads "+k+": written only after WaitForTarget", p.pos(skipSite), fnName(rd),
+					itoa(nStores)+" store(s) to the field, each dominated by a graph.WaitForTarget call in its function",
+					"the test that skips a declared dependency as already resolved reads "+k+", which is written at "+p.pos(badSite)+" before the dependency has been looked up in the graph: a second queueing pass that overlaps the first skips the dependency, sees an empty Dependencies() and enqueues the target before its dependencies are built")
 			}
 		}
 	}
